@@ -57,3 +57,154 @@ fn c04_native() {
         println!("C04CASE {i} passes={passes} member={}", member(&cand, &p));
     }
 }
+
+// ------------------------------------------------------------------------------------------------
+// Static part (hints/filters.rs), used by /verif/c04_static.py.
+//
+// `C04S_CASES`, one case per line:
+//   `S|<nullable 0/1>|<p>|<Op>,<v|t|->,<value>;...`   real candidate_from_statically_evaluated_filters
+//   `M|<Op>,<v|t|->,<value>;...`                      real fold_requires_at_least_one_element (count filters)
+mod static_part {
+    use super::{dec, f, h, member};
+    use std::collections::BTreeMap;
+    use std::num::NonZeroUsize;
+    use std::sync::Arc;
+    use trustfall_core::ir::{
+        Argument, ContextField, EdgeParameters, Eid, FieldRef, FieldValue, FoldSpecificFieldKind,
+        IRFold, IRQueryComponent, LocalField, Operation, Type, VariableRef, Vid,
+    };
+
+    fn mk_op<L: std::fmt::Debug + Clone + PartialEq + Eq>(op: &str, l: L, a: Argument) -> Operation<L, Argument> {
+        match op {
+            "IsNull" => Operation::IsNull(l),
+            "IsNotNull" => Operation::IsNotNull(l),
+            "Equals" => Operation::Equals(l, a),
+            "NotEquals" => Operation::NotEquals(l, a),
+            "LessThan" => Operation::LessThan(l, a),
+            "LessThanOrEqual" => Operation::LessThanOrEqual(l, a),
+            "GreaterThan" => Operation::GreaterThan(l, a),
+            "GreaterThanOrEqual" => Operation::GreaterThanOrEqual(l, a),
+            "Contains" => Operation::Contains(l, a),
+            "NotContains" => Operation::NotContains(l, a),
+            "OneOf" => Operation::OneOf(l, a),
+            "NotOneOf" => Operation::NotOneOf(l, a),
+            "HasPrefix" => Operation::HasPrefix(l, a),
+            "NotHasPrefix" => Operation::NotHasPrefix(l, a),
+            "HasSuffix" => Operation::HasSuffix(l, a),
+            "NotHasSuffix" => Operation::NotHasSuffix(l, a),
+            "HasSubstring" => Operation::HasSubstring(l, a),
+            "NotHasSubstring" => Operation::NotHasSubstring(l, a),
+            "RegexMatches" => Operation::RegexMatches(l, a),
+            "NotRegexMatches" => Operation::NotRegexMatches(l, a),
+            other => panic!("operator {other}"),
+        }
+    }
+
+    /// does the real filter kernel pass? (`None`: a tag argument or an operator without integer semantics)
+    fn passes(op: &str, kind: &str, p: &FieldValue, v: &FieldValue) -> Option<bool> {
+        match (op, kind) {
+            ("IsNull", _) => Some(f::is_null(p)),
+            ("IsNotNull", _) => Some(!f::is_null(p)),
+            (_, "t") => None,
+            ("Equals", _) => Some(f::equals(p, v)),
+            ("NotEquals", _) => Some(f::not_equals(p, v)),
+            ("LessThan", _) => Some(f::less_than(p, v)),
+            ("LessThanOrEqual", _) => Some(f::less_than_or_equal(p, v)),
+            ("GreaterThan", _) => Some(f::greater_than(p, v)),
+            ("GreaterThanOrEqual", _) => Some(f::greater_than_or_equal(p, v)),
+            ("OneOf", _) => Some(f::one_of(p, v)),
+            ("NotOneOf", _) => Some(f::not_one_of(p, v)),
+            _ => None,
+        }
+    }
+
+    fn parse_filters(s: &str) -> Vec<(String, String, FieldValue)> {
+        s.split(';')
+            .filter(|x| !x.is_empty())
+            .map(|x| {
+                let mut it = x.splitn(3, ',');
+                let op = it.next().unwrap().to_string();
+                let kind = it.next().unwrap().to_string();
+                let v = dec(it.next().unwrap());
+                (op, kind, v)
+            })
+            .collect()
+    }
+
+    fn argument(i: usize, kind: &str, vars: &mut BTreeMap<Arc<str>, FieldValue>, v: &FieldValue) -> Argument {
+        let ty = Type::new_named_type("Int", true);
+        if kind == "t" {
+            Argument::Tag(FieldRef::ContextField(ContextField {
+                vertex_id: Vid::new(NonZeroUsize::new(1).unwrap()),
+                field_name: Arc::from("tagged"),
+                field_type: ty,
+            }))
+        } else {
+            let name: Arc<str> = Arc::from(format!("v{i}"));
+            vars.insert(name.clone(), v.clone());
+            Argument::Variable(VariableRef { variable_name: name, variable_type: ty })
+        }
+    }
+
+    #[test]
+    fn c04_static_native() {
+        let Ok(spec) = std::env::var("C04S_CASES") else { return };
+        for (i, case) in spec.lines().filter(|x| !x.is_empty()).enumerate() {
+            let parts: Vec<&str> = case.split('|').collect();
+            if parts[0] == "S" {
+                let nullable = parts[1] == "1";
+                let p = dec(parts[2]);
+                let fl = parse_filters(parts[3]);
+                let mut vars = BTreeMap::new();
+                let mut all = nullable || !f::is_null(&p);
+                let mut ops = vec![];
+                for (k, (op, kind, v)) in fl.iter().enumerate() {
+                    let lf = LocalField { field_name: Arc::from("p"), field_type: Type::new_named_type("Int", nullable) };
+                    let a = argument(k, kind, &mut vars, v);
+                    ops.push(mk_op(op, lf, a));
+                    if let Some(b) = passes(op, kind, &p, v) {
+                        all &= b;
+                    }
+                }
+                let c = h::static_candidate(&ops, &vars, nullable);
+                match c {
+                    None => println!("C04SCASE {i} passes={all} cand=none member=true"),
+                    Some(c) => println!("C04SCASE {i} passes={all} cand=some member={}", member(&c, &p)),
+                }
+            } else {
+                let fl = parse_filters(parts[1]);
+                let mut vars = BTreeMap::new();
+                let zero = FieldValue::Uint64(0);
+                let mut empty_passes = true;
+                let mut ops = vec![];
+                for (k, (op, kind, v)) in fl.iter().enumerate() {
+                    let a = argument(k, kind, &mut vars, v);
+                    ops.push(mk_op(op, FoldSpecificFieldKind::Count, a));
+                    if let Some(b) = passes(op, kind, &zero, v) {
+                        empty_passes &= b;
+                    }
+                }
+                let vid = |n: usize| Vid::new(NonZeroUsize::new(n).unwrap());
+                let fold = IRFold {
+                    eid: Eid::new(NonZeroUsize::new(1).unwrap()),
+                    from_vid: vid(1),
+                    to_vid: vid(2),
+                    edge_name: Arc::from("e"),
+                    parameters: EdgeParameters::default(),
+                    component: Arc::new(IRQueryComponent {
+                        root: vid(2),
+                        vertices: BTreeMap::new(),
+                        edges: BTreeMap::new(),
+                        folds: BTreeMap::new(),
+                        outputs: BTreeMap::new(),
+                    }),
+                    imported_tags: vec![],
+                    fold_specific_outputs: BTreeMap::new(),
+                    post_filters: ops,
+                };
+                let mandatory = h::fold_requires_at_least_one_element(&vars, &fold);
+                println!("C04SCASE {i} mandatory={mandatory} empty_passes={empty_passes}");
+            }
+        }
+    }
+}
